@@ -353,6 +353,8 @@ func (x *ctx) runCase(c Case, o *vlib.Oracle) {
 				x.tie(c, "Lean RFC 2104 HMAC differs from crypto/hmac")
 			}
 		}
+	case "recov": // r s msg recid(1 byte)
+		x.runRecov(c, a, o, useOracle, key)
 	case "legacy": // op-name + args: a witness of a repaired defect; the current code must refuse it
 		x.runLegacy(c, o, key)
 	default:
@@ -692,6 +694,7 @@ func main() {
 	add("psig", true, r.N(800, 15000), 200)
 	add("nonce", true, r.N(60, 600), 20)
 	add("hmac", true, r.N(60, 600), 20)
+	add("recov", true, r.N(24, 500), 4)
 	// real vs reference only (cheap): the property's own predicate on many more inputs
 	add("ecdsa", false, r.N(2000, 30000), 250)
 	add("schnorr", false, r.N(1200, 20000), 200)
@@ -700,6 +703,7 @@ func main() {
 	add("signrfc", false, r.N(100, 1500), 50)
 	add("signrnd", false, r.N(100, 1500), 50)
 	add("ssign", false, r.N(100, 1500), 50)
+	add("recov", false, r.N(600, 10000), 100)
 	// sweeps (sweep.go): long incremental runs of valid inputs + their minimal invalid sibling, for defects
 	// that need 10^4..10^5 inputs to show (un-normalised field elements read by IsOdd/Equals)
 	add("sweep-tweak", false, r.N(120000, 1500000), 4000)
@@ -760,7 +764,7 @@ func main() {
 	r.Extra["corpus_cases"] = ncorpus
 	r.Extra["oracle_workers"] = workers
 	r.Finish(
-		"corpus (defect witnesses, boundary scalars, BIP340 CSV rows, RFC6979/HMAC and signature vectors from the repo's tests) then a structured generator: valid triples from random keys in all key formats, then one mutation per case (bit flips, r/s in {0,n,n+k,p,2^256-1,s+n,n-s}, 33-byte and padded integers, DER container damage, x>=p, y>=p, non-residue x, off-curve, hybrid parity, wrong lengths, infinity results, own-arithmetic forgeries, algebraic triples with small s offered as s+n < 2^256, signing inputs solved for short R / short S with the top bit set); then incremental sweeps (sweep.go: valid tweak / ECDSA / BIP340 inputs advanced by one point addition per case, each with its minimal invalid sibling; counted as evaluations with an empty distinct key); distinct = distinct (op, arguments)",
+		"corpus (defect witnesses, boundary scalars, BIP340 CSV rows, RFC6979/HMAC and signature vectors from the repo's tests) then a structured generator: valid triples from random keys in all key formats, then one mutation per case (bit flips, r/s in {0,n,n+k,p,2^256-1,s+n,n-s}, 33-byte and padded integers, DER container damage, x>=p, y>=p, non-residue x, off-curve, hybrid parity, wrong lengths, infinity results, own-arithmetic forgeries, algebraic triples with small s offered as s+n < 2^256, triples solved for a chosen nonce point with n <= x(R) < p (r = x-n) and their unreduced / negated-key / high-S / bit-flipped siblings, twin nonce points x and x+n sharing one r, public-key recovery on arbitrary (r, s, hash, recid) with the recovered triple offered back to the verifier, signing inputs solved for short R / short S with the top bit set); then incremental sweeps (sweep.go: valid tweak / ECDSA / BIP340 inputs advanced by one point addition per case, each with its minimal invalid sibling; counted as evaluations with an empty distinct key); distinct = distinct (op, arguments)",
 		"real gocoin functions vs an independent math/big reference (property predicate) on every case; a subset also through the Lean model and Lean spec (oracle_c03): real=model is the tie, model=spec is what the iff-theorems state")
 }
 
